@@ -71,6 +71,6 @@ def c05 (kind : String) (f : Fields) : String :=
 
 /-- case kinds served by this module. -/
 def handlersC05 : List (String × (Fields → String)) :=
-  ["rawpack", "rawunpack", "rawstream"].map (fun k => (k, c05 k))
+  ["rawpack", "rawunpack", "rawstream"].map (fun k => (k, c05 k)) ++ [("xrt", fun _ => "oracle-only")]
 
 end Teleport.Drv
